@@ -112,30 +112,36 @@ def documentedTypes (d : DocR) (o : OpR) : List String :=
     | .inline st def_ => some (inlineTypeName o st def_)
     | .comp _ n => (root d n).map (fun r => r.1 ++ "Response"))
 
-/-- model of the emitted types: every response type with the set of operations whose
+/-- model of the emitted types: every response type with the operations (by name) whose
     `write<Op>` method it carries (inline: its own operation; component: its UsedIn list) -/
 structure RespType where
   name : String
-  methods : List String     -- write<OperationName> method names
+  methods : List String     -- operation names; the Go method is write<OperationName>
 deriving Repr, Inhabited
 
-def emittedTypes (d : DocR) : List RespType :=
-  let inl := d.ops.flatMap (fun o => o.uses.filterMap (fun u => match u with
-    | .inline st def_ => some { name := inlineTypeName o st def_, methods := ["write" ++ operationName o] }
+/-- does operation `o` use (through any alias) the defining component `n`? -/
+def usesRoot (d : DocR) (o : OpR) (n : String) : Bool :=
+  o.uses.any (fun u => match u with
+    | .comp _ m => (root d m).map (·.1) == some n
+    | _ => false)
+
+def inlineTypes (d : DocR) : List RespType :=
+  d.ops.flatMap (fun o => o.uses.filterMap (fun u => match u with
+    | .inline st def_ => some { name := inlineTypeName o st def_, methods := [operationName o] }
     | .comp _ _ => none))
-  let comps := d.comps.filterMap (fun (n, c) => match c with
+
+def compTypes (d : DocR) : List RespType :=
+  d.comps.filterMap (fun (n, c) => match c with
     | Sum.inr _ =>
       some { name := n ++ "Response",
-             methods := d.ops.filterMap (fun o =>
-               if o.uses.any (fun u => match u with
-                 | .comp _ m => (root d m).map (·.1) == some n
-                 | _ => false) then some ("write" ++ operationName o) else none) }
+             methods := d.ops.filterMap (fun o => if usesRoot d o n then some (operationName o) else none) }
     | Sum.inl _ => none)
-  inl ++ comps
+
+def emittedTypes (d : DocR) : List RespType := inlineTypes d ++ compTypes d
 
 /-- Go: `T` satisfies the one-method interface `<Op>Response` iff it has that method -/
 def implementers (d : DocR) (o : OpR) : List String :=
-  ((emittedTypes d).filter (fun t => t.methods.contains ("write" ++ operationName o))).map (·.name)
+  ((emittedTypes d).filter (fun t => t.methods.contains (operationName o))).map (·.name)
 
 /-! ### C02: what writing a documented response emits -/
 
